@@ -278,8 +278,17 @@ def run(ctx) -> list[Inst]:
             if path in cd.get('unwritten_ok', {}):
                 continue
             construct = f"(ii) {cd['name']}: {'/'.join(path)} restored by the reader is written by the writer"
+            # the key cannot be written without being named: when its literal occurs somewhere in the writer's code
+            # (the function and what it reaches) it is probably written in a form the shape extraction does not read
+            named = False
+            try:
+                for g_ in ctx.an.reachable([wf]).values():
+                    if any(isinstance(x, ast.Constant) and x.value == path[-1] for x in ast.walk(g_.node)):
+                        named = True
+            except Exception:
+                named = True
             insts.append(Inst(
-                RULE, wf.short, construct, 'unproven' if writer_opaque else 'violation',
+                RULE, wf.short, construct, 'unproven' if (writer_opaque or named) else 'violation',
                 msg=(f"{rf.short} restores '{path[-1]}' when the record has it, but {wf.short} never writes that key "
                      f"(its sibling keys are written): the value does not survive a save / load round trip"),
                 file=rel_w, line=wf.node.lineno, props=props))
@@ -627,6 +636,30 @@ def _id_keys(ctx) -> list[Inst]:
 def _ext_table(f):
     """extension string -> set of callee names dispatched to under that test."""
     table = {}
+    # validation form: `if not name.endswith((..)): raise` - every listed extension goes on to what follows
+    pmv = {}
+    for n in ast.walk(f.node):
+        for fld in ('body', 'orelse'):
+            blk = getattr(n, fld, None)
+            if isinstance(blk, list):
+                for i_, st_ in enumerate(blk):
+                    pmv[id(st_)] = (blk, i_)
+    for n in own_nodes(f.node):
+        if isinstance(n, ast.If) and isinstance(n.test, ast.UnaryOp) and isinstance(n.test.op, ast.Not) \
+                and isinstance(n.test.operand, ast.Call) and isinstance(n.test.operand.func, ast.Attribute) \
+                and n.test.operand.func.attr == 'endswith' and n.test.operand.args \
+                and any(isinstance(x, ast.Raise) for b in n.body for x in ast.walk(b)) and id(n) in pmv:
+            a = n.test.operand.args[0]
+            exts = [a.value] if isinstance(a, ast.Constant) else [x.value for x in getattr(a, 'elts', []) if isinstance(x, ast.Constant)]
+            blk, i_ = pmv[id(n)]
+            calls = set()
+            for st in blk[i_ + 1:]:
+                for sub in ast.walk(st):
+                    if isinstance(sub, ast.Call):
+                        calls.add(sub.func.attr if isinstance(sub.func, ast.Attribute) else (sub.func.id if isinstance(sub.func, ast.Name) else ''))
+            for e in exts:
+                if isinstance(e, str):
+                    table.setdefault(e.lstrip('.'), set()).update(calls)
     for n in own_nodes(f.node):
         if isinstance(n, ast.If):
             exts = []
@@ -681,6 +714,10 @@ def _ext_readable(f) -> bool:
             while cur is not None:
                 if isinstance(cur, ast.If) and cur.test is child:
                     ok = True
+                    break
+                if isinstance(cur, ast.UnaryOp) and isinstance(cur.op, ast.Not) and isinstance(pm.get(id(cur)), ast.If) \
+                        and pm[id(cur)].test is cur and any(isinstance(x, ast.Raise) for b in pm[id(cur)].body for x in ast.walk(b)):
+                    ok = True       # `if not name.endswith((..)): raise` - the validation form _ext_table reads
                     break
                 if isinstance(cur, ast.BoolOp) and isinstance(cur.op, ast.Or):
                     child, cur = cur, pm.get(id(cur))
